@@ -187,9 +187,30 @@ func New(tape *Tape, root string, start time.Time) *Sim {
 // Attach makes s the simulation of this OS process.
 func Attach(s *Sim) { S = s }
 
+var savedLocal *time.Location
+
+// SetZone sets the machine's local time zone: what time.Now() carries and what
+// the time package takes for time.Local (time.Unix, Time.Local, formatting of
+// such values) until the simulation is detached.
+func (s *Sim) SetZone(loc *time.Location) {
+	s.Zone = loc
+	if loc != nil {
+		if savedLocal == nil {
+			savedLocal = time.Local
+		}
+		time.Local = loc
+	}
+}
+
 // Detach removes the simulation. Tasks that are still parked stay parked
 // forever (their processes are dead as far as the system under test knows).
-func Detach() { S = nil }
+func Detach() {
+	S = nil
+	if savedLocal != nil {
+		time.Local = savedLocal
+		savedLocal = nil
+	}
+}
 
 func (s *Sim) NewProc(name string, parent *Proc) *Proc {
 	p := &Proc{ID: len(s.Procs), Name: name, Env: map[string]string{}, Parent: parent}
@@ -363,6 +384,21 @@ func (s *Sim) SetDelay(classes []string, n int) {
 	for i := 0; i < n; i++ {
 		s.delays = append(s.delays, &delayRule{class: classes[s.Tape.Rng.Intn(len(classes))], k: 1 + s.Tape.Rng.Intn(10),
 			dur: 20 + s.Tape.Rng.Intn(300), seen: map[[2]int]bool{}})
+	}
+}
+
+// SetDelayRange is SetDelay with the occurrence index drawn from 1..maxK and the
+// length of the stall from minDur..maxDur steps.
+func (s *Sim) SetDelayRange(classes []string, n, maxK, minDur, maxDur int) {
+	s.Strat = StratDelay
+	s.delayedTill = map[*Task]int{}
+	s.delays = nil
+	if s.Tape.Replay || len(classes) == 0 {
+		return
+	}
+	for i := 0; i < n; i++ {
+		s.delays = append(s.delays, &delayRule{class: classes[s.Tape.Rng.Intn(len(classes))], k: 1 + s.Tape.Rng.Intn(maxK),
+			dur: minDur + s.Tape.Rng.Intn(maxDur-minDur+1), seen: map[[2]int]bool{}})
 	}
 }
 
